@@ -5,6 +5,7 @@ import (
 	"go/ast"
 	"go/token"
 	"math/big"
+	"strings"
 )
 
 // Kind is the kind of a Go type of the supported subset.
@@ -30,14 +31,19 @@ const (
 	KStruct
 	KUntypedInt
 	KUntypedNil
+	KWrap // a struct with exactly one field (named or embedded), represented by that field
+	KMap  // map[Variable]*Term, represented by the model's dbindings
 )
 
 // T is a Go type.  Name is the declared name of a named type ("" otherwise).
 type T struct {
-	K    Kind
-	Name string
-	Elem *T
-	Len  int64
+	K        Kind
+	Name     string
+	Elem     *T
+	Len      int64
+	Field    string // KWrap: the name of the single field (the type name when embedded)
+	Embedded bool   // KWrap: the field is embedded (its methods are promoted)
+	Key      *T     // KMap
 }
 
 var (
@@ -95,6 +101,10 @@ func (t *T) String() string {
 		return "Term"
 	case KAtom:
 		return "Term(element of a Set)"
+	case KWrap:
+		return "struct{" + t.Field + " " + t.Elem.String() + "}"
+	case KMap:
+		return "map[" + t.Key.String() + "]" + t.Elem.String()
 	case KBigInt:
 		return "*big.Int"
 	case KRegexp:
@@ -121,8 +131,18 @@ func sameType(a, b *T) bool {
 		return sameType(a.Elem, b.Elem)
 	case KArray:
 		return a.Len == b.Len && sameType(a.Elem, b.Elem)
+	case KMap:
+		return sameType(a.Key, b.Key) && sameType(a.Elem, b.Elem)
+	case KWrap:
+		return a.Field == b.Field && a.Embedded == b.Embedded && sameType(a.Elem, b.Elem)
 	}
 	return true
+}
+
+// isAtomList: the slice type Set = []Term holds atoms (DTerm.v: DSet (l : list datom));
+// every other slice of Term (type stack []Term) holds arbitrary terms.
+func isAtomList(t *T) bool {
+	return t.isList() && t.Elem.K == KIface && t.Elem.Name == "Term" && t.Name == "Set"
 }
 
 func (t *T) isSigned() bool   { return t.K == KInt || t.K == KInt64 || t.K == KInt32 }
@@ -203,18 +223,24 @@ func coqType(t *T) string {
 		if t.Elem.K == KUint8 {
 			return "bytes"
 		}
-		if t.Elem.K == KIface {
+		if isAtomList(t) {
 			return "list datom"
 		}
 		return "list " + paren(coqType(t.Elem))
 	case KPtr:
 		return coqType(t.Elem)
 	case KIface:
-		return "dterm"
+		if r := ifaceFor(t.Name); r != nil {
+			return r.coq
+		}
 	case KAtom:
 		return "datom"
 	case KStruct:
 		return "unit"
+	case KWrap:
+		return coqType(t.Elem)
+	case KMap:
+		return "dbindings"
 	}
 	return "UNSUPPORTED"
 }
@@ -222,7 +248,7 @@ func coqType(t *T) string {
 // elemType is the type of an element read out of a list: the elements of a
 // []Term are atoms (DTerm.v: DSet holds a list of datom).
 func elemType(t *T) *T {
-	if t.Elem.K == KIface {
+	if isAtomList(t) {
 		return tAtom
 	}
 	return t.Elem
@@ -264,16 +290,82 @@ func implFor(name string) *implementor {
 	return nil
 }
 
+// ---------- the represented interfaces ----------
+
+// ifaceRep: a Go interface of the package represented by a Gallina inductive type of
+// the model; each implementor is one constructor (termPat; %s is the payload, absent
+// for a struct{} implementor).  The list of implementors is CHECKED against the
+// method sets found in the source (Pkg.checkIface): a type that implements the
+// interface without a constructor here, or a constructor without its type, is an error.
+type ifaceRep struct {
+	name  string
+	coq   string
+	impls []implementor
+}
+
+var ifaceReps = []*ifaceRep{
+	{"Term", "dterm", termImpls},
+	// Model/DTerm.v: Inductive dop := DOVal (t : dterm) | DOUn (u : unop) | DOBin (b : binop)
+	{"Op", "dop", []implementor{{"Value", "DOVal %s", ""}, {"UnaryOp", "DOUn %s", ""}, {"BinaryOp", "DOBin %s", ""}}},
+	// Model/Term.v: Inductive unop / binop, one constant constructor per operator type
+	{"UnaryOpFunc", "unop", []implementor{{"Negate", "UNegate", ""}, {"Parens", "UParens", ""}, {"Length", "ULength", ""}}},
+	{"BinaryOpFunc", "binop", []implementor{
+		{"LessThan", "BLessThan", ""}, {"LessOrEqual", "BLessOrEqual", ""}, {"GreaterThan", "BGreaterThan", ""},
+		{"GreaterOrEqual", "BGreaterOrEqual", ""}, {"Equal", "BEqual", ""}, {"Contains", "BContains", ""},
+		{"Prefix", "BPrefix", ""}, {"Suffix", "BSuffix", ""}, {"Regex", "BRegex", ""}, {"Add", "BAdd", ""},
+		{"Sub", "BSub", ""}, {"Mul", "BMul", ""}, {"Div", "BDiv", ""}, {"And", "BAnd", ""}, {"Or", "BOr", ""},
+		{"Intersection", "BIntersection", ""}, {"Union", "BUnion", ""}}},
+}
+
+func ifaceFor(name string) *ifaceRep {
+	for _, r := range ifaceReps {
+		if r.name == name {
+			return r
+		}
+	}
+	return nil
+}
+
+// implsOf: the implementors of the interface a scrutinee has.
+func implsOf(scrut *T) []implementor {
+	if scrut.K == KAtom {
+		return termImpls
+	}
+	if r := ifaceFor(scrut.Name); r != nil && scrut.K == KIface {
+		return r.impls
+	}
+	return nil
+}
+
+func implIn(scrut *T, name string) *implementor {
+	impls := implsOf(scrut)
+	for i := range impls {
+		if impls[i].goType == name {
+			return &impls[i]
+		}
+	}
+	return nil
+}
+
+// fillPat instantiates a constructor pattern; a constant constructor has no payload.
+func fillPat(pat, binder string) string {
+	if strings.Contains(pat, "%s") {
+		return fmt.Sprintf(pat, binder)
+	}
+	return pat
+}
+
 // ---------- the package ----------
 
 type Pkg struct {
-	fset   *token.FileSet
-	files  []*ast.File
-	types  map[string]*ast.TypeSpec
-	funcs  map[string]*ast.FuncDecl // "Recv.Name" or "Name"
-	consts map[string]*constInfo
-	vars   map[string]*ast.ValueSpec
-	varIdx map[string]int
+	fset         *token.FileSet
+	files        []*ast.File
+	types        map[string]*ast.TypeSpec
+	funcs        map[string]*ast.FuncDecl // "Recv.Name" or "Name"
+	consts       map[string]*constInfo
+	vars         map[string]*ast.ValueSpec
+	varIdx       map[string]int
+	ifaceChecked map[string]error
 }
 
 type constInfo struct {
